@@ -174,6 +174,16 @@ pub struct FileCase {
     /// write a V1 twin and query it (C10)
     #[serde(default)]
     pub v1: bool,
+    /// a file beyond 4 GiB: `fillers` entries of `filler_len` bytes (kept as holes) then `small` entries
+    #[serde(default)]
+    pub big: Option<BigSpec>,
+}
+
+#[derive(Clone, Serialize, Deserialize, Debug, PartialEq)]
+pub struct BigSpec {
+    pub fillers: u32,
+    pub filler_len: u32,
+    pub small: u32,
 }
 
 #[derive(Clone, Serialize, Deserialize, Debug, PartialEq)]
